@@ -120,6 +120,88 @@ func GenCase(r *rand.Rand, seed int64, kind string) Case {
 		}
 		cs.JoinPct, cs.ContPct = 20, 40
 		cs.Capacity = pickInt(r, 2, 4, 16, 256)
+	case "directed":
+		// pattern-driven schedules for windows that random traffic rarely hits
+		cs.EventTimeoutMs = 300
+		cs.Capacity = pickInt(r, 16, 256)
+		cs.Procs = pickInt(r, 2, 4, 8)
+		cs.Sources = 2 + r.Intn(5)
+		cs.Readers = cs.Sources
+		cs.Streams = r.Intn(2)
+		cs.PerSource = 24 + r.Intn(24)
+		cs.PauseMs = 25
+		cs.Out.FailPlan = "none"
+		cs.Out.FlushMs = 20
+		switch r.Intn(4) {
+		case 0:
+			// an earlier action discards an event of the sequence while join
+			// holds one and the stream is momentarily empty
+			cs.Chain = []ActionSpec{script, join}
+			cs.Pattern = []string{"S", "D", "P", "N", "N", "S", "C", "D", "P", "N"}
+		case 1:
+			// join with match conditions: an event that does not match arrives mid-hold
+			cs.Chain = []ActionSpec{{"type": "join", "field": "msg", "start": "/^S:/", "continue": "/^C:/", "match_fields": map[string]any{"jm": "y"}}}
+			cs.Pattern = []string{"S", "X", "P", "N", "S", "C", "X", "N", "P"}
+		case 2:
+			// split parents whose children are all dropped: parent-only batches,
+			// the last one is partial and must be flushed by the timer
+			cs.Chain = []ActionSpec{split, script}
+			cs.Pattern = []string{"K", "N", "K", "K", "P", "K"}
+			cs.Out.Count = 64
+			cs.PerSource = 6 + r.Intn(10)
+			cs.PadMax = 0
+		case 3:
+			// script hold released by the next event / by the time-out after a pause
+			cs.Chain = []ActionSpec{script}
+			cs.Pattern = []string{"H", "N", "H", "P", "L", "L", "N", "H", "D", "P", "N"}
+			cs.PauseMs = 450
+			cs.PerSource = 12 + r.Intn(12)
+		}
+		cs.OpWeights = map[string]int{"pass": 1}
+		cs.JoinPct, cs.ContPct, cs.SplitPct = 0, 0, 0
+		if cs.Pattern[0] == "S" {
+			cs.JoinPct = 1 // chain classification: join is hold-capable
+		}
+		if cs.Pattern[0] == "H" {
+			cs.OpWeights["hold"] = 1
+		}
+	case "stop":
+		// Stop while the output is retrying: nothing that was not delivered may be committed
+		cs.Chain = []ActionSpec{script}
+		cs.EventTimeoutMs = 30000
+		cs.Capacity = pickInt(r, 16, 256)
+		cs.Sources = 1 + r.Intn(3)
+		cs.PerSource = 10 + r.Intn(30)
+		cs.Out.Plain = false
+		cs.Out.Retry = pickInt(r, 3, 5)
+		cs.Out.RetentMs = pickInt(r, 100, 200)
+		cs.Out.FailPlan = "all"
+		cs.Out.FlushMs = 20
+		cs.Out.DelayUs = nil
+		cs.StopAfterMs = 150 + r.Intn(200)
+		if r.Intn(2) == 0 {
+			cs.DLQ = &OutSpec{Workers: 1, Count: 4, FlushMs: 20, Plain: true, FailPlan: "none"}
+		}
+	case "retry":
+		// retries that eventually succeed or never give up (negative retry)
+		cs.Chain = []ActionSpec{script}
+		cs.EventTimeoutMs = 30000
+		cs.Out.Plain = false
+		cs.Out.Retry = pickInt(r, -1, 0, 1, 2, 3, 5)
+		cs.Out.RetentMs = pickInt(r, 2, 5, 10)
+		cs.Out.Mult = float64(pickInt(r, 1, 2, 3))
+		n := 1 + r.Intn(4)
+		if cs.Out.Retry >= 0 && n > cs.Out.Retry {
+			n = cs.Out.Retry
+		}
+		cs.Out.FailPlan = fmt.Sprintf("every:%d:%d", 1+r.Intn(3), n)
+		if n == 0 {
+			cs.Out.FailPlan = "none"
+		}
+		cs.PerSource = 20 + r.Intn(60)
+		if r.Intn(3) == 0 {
+			cs.DLQ = &OutSpec{Workers: 1, Count: 4, FlushMs: 20, Plain: true, FailPlan: "none"}
+		}
 	case "tiny":
 		cs.Capacity = pickInt(r, 1, 1, 2, 3)
 		cs.Procs = pickInt(r, 1, 1, 2)
@@ -159,8 +241,18 @@ func GenCase(r *rand.Rand, seed int64, kind string) Case {
 			cs.PauseEvery = lines/6 + 1
 		}
 	}
+	if (kind == "hold" || kind == "directed") && r.Intn(2) == 0 {
+		// stretch the streamer heartbeat's pass over the blocked streams so that
+		// puts and wake-ups of blocked processors fall inside it
+		if cs.HookSleeps == nil {
+			cs.HookSleeps = map[string][2]int{}
+		}
+		cs.HookSleeps["stream.tryUnblock"] = [2]int{1000 + r.Intn(3000), 100}
+	}
 	if r.Intn(2) == 0 {
-		cs.HookSleeps = map[string][2]int{}
+		if cs.HookSleeps == nil {
+			cs.HookSleeps = map[string][2]int{}
+		}
 		for _, h := range []string{"router.beforeOut", "batcher.afterOut", "batcher.beforeCommitWait", "streamer.join.beforeAttach"} {
 			if r.Intn(2) == 0 {
 				cs.HookSleeps[h] = [2]int{100 + r.Intn(1500), 5 + r.Intn(30)}
